@@ -29,6 +29,7 @@ def run(rep, prog, tier):
     rep.rule('C14.4', 'copy completeness', floor=9)
     rep.rule('C14.5', 'attachment inserts; embedded signatures extracted', floor=5)
     rep.rule('C14.6', 'copies of key material and signature material carry every attribute their serialiser reads', floor=12)
+    rep.rule('C14.7', 'octet widths of exported key material are ceilings of the bit length; EC points and MPIs re-parse to what was written', floor=10)
     rep.assume('SorteDeque.insort keeps elements with equal keys (bisect insertion, no replacement)')
     rep.assume('SubPackets: `name in sp` holds exactly when sp[name] is a non-empty list (lookup by subpacket name in both areas)')
 
@@ -38,6 +39,14 @@ def run(rep, prog, tier):
     copies(rep, prog)
     attach(rep, prog)
     material_copies(rep, prog)
+    material_widths(rep, prog)
+
+
+def material_widths(rep, prog):
+    """C14.7: a generated key survives export and import only if the widths its material is written with are the widths it is
+    read with (P-521: 66 octets per coordinate, not 65) - the finite-point family of C18.10, reported here."""
+    from rules import C18
+    C18.check_widths(rep, prog, 'C14.7')
 
 
 def material_copies(rep, prog):
@@ -60,13 +69,144 @@ def _second(var):
     return m.group(2) if m else None
 
 
+ELEMENT_CLASS = {'_uids': 'PGPUID', '_children': 'PGPKey', '_signatures': 'PGPSignature', 'subkeys': 'PGPKey'}
+
+
+def _split_each(text):
+    """'EACH(v in coll;body)' -> (v, coll, body) (top-level ';'), else None."""
+    if not (text.startswith('EACH(') and text.endswith(')')):
+        return None
+    inner, depth = text[5:-1], 0
+    cut = None
+    for i, ch in enumerate(inner):
+        if ch in '([{':
+            depth += 1
+        elif ch in ')]}':
+            depth -= 1
+        elif ch == ';' and depth == 0:
+            cut = i
+            break
+    if cut is None or ' in ' not in inner[:cut]:
+        return None
+    v, coll = inner[:cut].split(' in ', 1)
+    return v, coll, inner[cut + 1:]
+
+
+class _Gen(object):
+    """Expands `for c in X._gen(..): out += c.__bytearray__()` into the byte items of the sequence the generator yields: the
+    generator (and the generators it re-yields) is interpreted; every yielded object contributes its serialisation."""
+    def __init__(self, prog, bound):
+        self.prog, self.bound, self.n = prog, bound, 700
+
+    def fresh(self, text, old):
+        self.n += 1
+        new = '$%d' % self.n
+        return re.sub(re.escape(old) + r'(?![\d_])(?!\.\d)', new, text), new
+
+    def call(self, text, cls_hint=None):
+        """items of `R.name(args)` when that is a generator of the program, else None."""
+        m = re.match(r'^(.+)\.(\w+)\((.*)\)$', text)
+        if m is None:
+            return None
+        recv, name, argt = m.groups()
+        owners = [c for c in self.prog.all_classes() if name in c.methods and any(isinstance(n, (ast.Yield, ast.YieldFrom)) for n in ast.walk(c.methods[name].node))]
+        if cls_hint is not None:
+            owners = [c for c in owners if c.name == cls_hint] or owners
+        if len(owners) != 1:
+            return None
+        fi = owners[0].methods[name]
+        args = {}
+        for a in _split_args(argt):
+            if re.match(r'^\w+=', a):
+                k, v = a.split('=', 1)
+                try:
+                    args[k] = Const(ast.literal_eval(v))
+                except (ValueError, SyntaxError):
+                    args[k] = Sym(v)
+            else:
+                return None
+        outs = Interp(self.prog, Scenario(inline=noinline)).run(fi, self_val=Sym(recv, cls=owners[0], nonnull=True), args=args)
+        outs = [o for o in outs if o.raised is None]
+        if len(outs) != 1:
+            return None
+        items = []
+        for y in outs[0].yields:
+            got = self.value(render(y))
+            if got is None:
+                return None
+            items.extend(got)
+        return items
+
+    def value(self, y):
+        """items contributed by one yielded value (text)."""
+        star = y.startswith('*')
+        t = y[1:] if star else y
+        e = _split_each(t)
+        if e is not None:
+            v, coll, body = e
+            t2, nv = self.fresh('%s\x00%s' % (coll, body), v)
+            coll, body = t2.split('\x00')
+            self.bound[nv] = split_filter(coll)[0]
+            if body == nv:
+                if not star and False:
+                    return None
+                return [('EACH', nv, coll, [('SYM', '%s.__bytearray__()' % nv)])]
+            # several yields per iteration are rendered one after the other
+            parts, depth, cur = [], 0, ''
+            for ch in body:
+                if ch in '([{':
+                    depth += 1
+                elif ch in ')]}':
+                    depth -= 1
+                if ch == ' ' and depth == 0:
+                    parts.append(cur)
+                    cur = ''
+                else:
+                    cur += ch
+            parts.append(cur)
+            inner = []
+            for part in [x for x in parts if x]:
+                got = self.value(part)
+                if got is None:
+                    return None
+                inner.extend(got)
+            return [('EACH', nv, coll, inner)]
+        if star:
+            mcoll = re.match(r'^(\$[\d.]+)\.', t)
+            hint = None
+            if mcoll and mcoll.group(1) in self.bound:
+                hint = ELEMENT_CLASS.get(self.bound[mcoll.group(1)].split('.')[-1].replace('values()', '').rstrip('.').split('.')[-1])
+                if hint is None:
+                    hint = ELEMENT_CLASS.get(re.sub(r'\.(values|items)\(\)$', '', self.bound[mcoll.group(1)]).split('.')[-1])
+            got = self.call(t, hint)
+            if got is not None:
+                return got
+            self.n += 1
+            nv = '$%d' % self.n
+            self.bound[nv] = t
+            return [('EACH', nv, t, [('SYM', '%s.__bytearray__()' % nv)])]
+        return [('SYM', '%s.__bytearray__()' % t)]
+
+
+def expand_generated(prog, f, s, its):
+    """If the export is one loop serialising what a generator of the program yields, return the items of that sequence (bound
+    variables of the expansion are added to s.bound); otherwise the items unchanged."""
+    its = merge_consts(its)
+    if len(its) == 1 and its[0][0] == 'EACH' and len(its[0][3]) == 1 and its[0][3][0] == ('SYM', '%s.__bytearray__()' % its[0][1]) and \
+            ' if ' not in its[0][2]:
+        got = _Gen(prog, s.bound).call(its[0][2], f.cls.name if f.cls is not None else None)
+        if got is not None:
+            return got
+    return its
+
+
 def export(rep, prog):
     f = prog.method('pgpy.pgp', 'PGPKey', '__bytearray__')
     rep.saw(fn=f)
     want = ['KEY', 'KEYSIGS', 'UIDS', 'SUBKEYS']
     me = f.params[0]
     for s in Interp(prog, Scenario(inline=noinline)).run(f):
-        its = merge_consts(s.ret.items) if isinstance(s.ret, Bytes) else None
+        its = expand_generated(prog, f, s, s.ret.items) if isinstance(s.ret, Bytes) else None
         if its is None:
             raise AnalysisError('PGPKey.__bytearray__ does not return bytes')
         kinds = []
@@ -300,17 +440,24 @@ def grouping(rep, prog):
                 gb.append(c)
     if len(gb) != 1:
         raise AnalysisError('PGPKey.parse: expected exactly one itertools.groupby over the packet stream')
+    calls_of = {id(gb[0]): next(s.calls for s in outs if any(c is gb[0] for c in s.calls))}
     stream = gb[0][1][0]
     keytext = gb[0][2].get('key', gb[0][1][1] if len(gb[0][1]) > 1 else None)
     # ---- Trust packets removed from the stream BEFORE grouping (the value that reaches groupby is a filtered stream)
     m = re.match(r'^EACH\((\$[\d.]+) in (.*);\1\)$', stream)
     okf = False
+    kept = None             # (element text, skeleton of the condition under which an element of the stream is kept)
     if m is not None:
         v, (base, conds) = m.group(1), split_filter(m.group(2))
+        kept = (v, conj(conds)) if conds else None
+    else:
+        kept = _generator_stream(prog, f, gb[0] + (calls_of[id(gb[0])],))
+    if kept is not None:
+        v, cond = kept
         trust = prog.cls('pgpy.constants', 'PacketTag').enum_members().get('Trust')
         for t in ('PacketTag.Trust', repr(trust)):
-            for a in ('%s.header.tag == %s' % (v, t), '%s == %s.header.tag' % (t, v), '%s.header.typeid == %s' % (v, t)):
-                okf = okf or (bool(conds) and same(conj(conds), ('not', skeleton(a))))
+            for a in ('%s.header.tag == %s' % (v, t), '%s.header.typeid == %s' % (v, t)):
+                okf = okf or same(cond, ('not', skeleton(a)))
     rep.check(okf, 'C14.3', 'PGPKey.parse', 'packet stream %s' % stream[:100],
               'Trust packets (keyring-local) must be removed from the packet stream before grouping: a Trust packet that opens a group swallows the '
               'signatures that follow it', where=where, expected='groupby(filter(lambda p: p.header.tag != PacketTag.Trust, ...), ...)')
@@ -424,6 +571,51 @@ def grouping(rep, prog):
                     seen.add(key_)
                     rep.check(okp, 'C14.3', 'PGPKey.parse', 'filing (%s, primary=%s): %s [%s]' % (scen, primary, filed, status), rule, where=where,
                               expected=want, found=filed, scenario=scen)
+
+
+def _generator_stream(prog, f, gbcall):
+    """The packet stream handed to groupby is the result of a generator of the program (`self._iter_packets(data, skip)`): the
+    generator is interpreted with the arguments of that call; -> (text of the yielded element, condition under which the element
+    parsed in an iteration is yielded), None when the stream is not such a call or does not have that shape."""
+    from sa.interp import Frame, State
+    from sa.loader import FunctionInfo
+    node = gbcall[4].args[0] if gbcall[4].args else None
+    # the call that produced the stream value: found among the recorded calls by its rendered result
+    stream = gbcall[1][0]
+    mcall = re.match(r'^((?:\w+\.)*)(\w+)\((.*)\)$', stream)
+    if mcall is None:
+        return None
+    name = mcall.group(2)
+    callee = f.cls.find_method(name) if (f.cls is not None and mcall.group(1)) else None
+    if callee is None and not mcall.group(1):
+        r = prog.lookup(f.module, name)
+        callee = r if isinstance(r, FunctionInfo) else None
+    if callee is None or not any(isinstance(n, (ast.Yield, ast.YieldFrom)) for n in ast.walk(callee.node)):
+        return None
+    params = list(callee.params)
+    if callee.cls is not None and not any(dotted(d) == 'staticmethod' for d in callee.node.decorator_list):
+        params = params[1:]
+    fr = Frame(Interp(prog, Scenario(inline=noinline)), f, 0)
+    args = {}
+    made = [c for c in gbcall[5] if '%s(%s)' % (c[0], ', '.join(list(c[1]) + ['%s=%s' % kv for kv in c[2].items()])) == stream]
+    if not made:
+        return None
+    cnode = made[0][4]
+    for pn, an in list(zip(params, cnode.args)) + [(k.arg, k.value) for k in cnode.keywords if k.arg]:
+        args[pn] = fr.ev(an, State())           # the argument expressions of that call (locals of parse stay symbolic)
+    outs, recs = observe(prog, callee, args=args)
+    yielded, conds = set(), []
+    for r in recs:
+        for status, facts, events, ys in r.paths:
+            if len(ys) > 1:
+                return None
+            if ys:
+                yielded.add(ys[0])
+                conds.append(path_cond(facts))
+    loose = [render(y) for s in outs for y in s.yields if not render(y).startswith('EACH(')]
+    if len(yielded) != 1 or loose:
+        return None
+    return yielded.pop(), any_of(conds)
 
 
 def grouper(rep, prog, f, keytext):
@@ -631,40 +823,7 @@ def copies(rep, prog):
                   'signature would be re-encoded and stop verifying', where=cp.where, expected='sp._hashed_raw = copy.copy(self._hashed_raw) with the maps copied directly')
     # packet-level copies reached from the copies above (copy.copy of the key / user id / user attribute / signature packet): an
     # explicit __copy__ must carry every field the packet's writer emits; no __copy__ at all is the generic (complete) copy
-    for cname in ('PubKeyV4', 'PrivKeyV4', 'PubSubKeyV4', 'PrivSubKeyV4', 'UserID', 'UserAttribute', 'SignatureV4'):
-        c = prog.cls('pgpy.packet.packets', cname)
-        cpm = c.find_method('__copy__')
-        if cpm is None:
-            rep.ok('C14.4', '%s.__copy__' % cname, 'generic copy (no override)')
-            continue
-        w = c.find_method('__bytearray__')
-        if w is None:
-            raise AnalysisError('%s.__bytearray__ vanished' % cname)
-        wme, cme = w.params[0], cpm.params[0]
-        emitted = set()
-        for s in Interp(prog, Scenario(inline=noinline, self_cls=c)).run(w):
-            r = render(s.ret) if s.ret is not None else ''
-            emitted |= {x.lstrip('_') for x in re.findall(r'(?<![\w.])%s\.(\w+)' % re.escape(wme), r)}
-            if re.search(r'super\(\w*\)\.__bytearray__\(\)', r):
-                emitted.add('header')
-        for s in Interp(prog, Scenario(inline=noinline, self_cls=c)).run(cpm):
-            if s.raised is not None:
-                continue
-            obj = render(s.ret)
-            carried = set()
-            for pth, v, l, _ in s.stores:
-                m = re.match(r'^%s\.(\w+)$' % re.escape(obj), pth)
-                if m is None:
-                    continue
-                fld = m.group(1).lstrip('_')
-                src = re.sub(r'^(?:copy\.copy|copy\.deepcopy|bytearray|bytes|list)\((.*)\)$', r'\1', v)
-                src = re.sub(r'(\[:\]|\.copy\(\))$', '', src)
-                if src in ('%s.%s' % (cme, fld), '%s._%s' % (cme, fld)):
-                    carried.add(fld)
-            missing = sorted(emitted - carried)
-            rep.check(not missing and bool(emitted), 'C14.4', '%s.__copy__' % cname, 'writer emits %s, copy carries %s' % (sorted(emitted), sorted(carried)),
-                      'a copied packet must carry every field its writer emits (a copy rebuilt from a derived view exports a truncated packet)',
-                      where=cpm.where, expected=sorted(emitted), found=sorted(carried))
+    packet_copies(rep, prog, 'C14.4', ('PubKeyV4', 'PrivKeyV4', 'PubSubKeyV4', 'PrivSubKeyV4', 'UserID', 'UserAttribute', 'SignatureV4'))
     # attributes __init__ sets: the ones this rule knows are covered by the checks above; any other attribute is classified by
     # analysis - certificate state (read by the serialiser / export / ordering / hash readers, and written from outside them)
     # must be carried by the copy, a cache or a constant need not be
@@ -703,6 +862,49 @@ def copies(rep, prog):
                       a, sorted(writes), detail),
                       'an attribute that the serialiser / ordering / hash input reads and that is set from outside them is certificate state: '
                       'a copy must carry it', where=(cpf or ini).where, expected='<copy>.%s = ... self.%s ...' % (a, a), found=detail)
+
+
+def packet_copies(rep, prog, rid, classnames):
+    """An explicit __copy__ of a packet class must carry every field the packet's writer emits (header included); no __copy__ at
+    all is the generic (complete) copy."""
+    for cname in classnames:
+        c = prog.cls('pgpy.packet.packets', cname)
+        cpm = c.find_method('__copy__')
+        if cpm is None:
+            rep.ok(rid, '%s.__copy__' % cname, 'generic copy (no override)')
+            continue
+        w = c.find_method('__bytearray__')
+        if w is None:
+            raise AnalysisError('%s.__bytearray__ vanished' % cname)
+        wme, cme = w.params[0], cpm.params[0]
+        emitted = set()
+        for s in Interp(prog, Scenario(inline=noinline, self_cls=c)).run(w):
+            r = render(s.ret) if s.ret is not None else ''
+            emitted |= {x.lstrip('_') for x in re.findall(r'(?<![\w.])%s\.(\w+)' % re.escape(wme), r)}
+            if re.search(r'super\(\w*\)\.__bytearray__\(\)', r):
+                emitted.add('header')
+        for s in Interp(prog, Scenario(inline=noinline, self_cls=c)).run(cpm):
+            if s.raised is not None:
+                continue
+            obj = render(s.ret)
+            carried = set()
+            for pth, v, l, _ in s.stores:
+                m = re.match(r'^%s\.(\w+)$' % re.escape(obj), pth)
+                if m is None:
+                    continue
+                fld = m.group(1).lstrip('_')
+                src = re.sub(r'^(?:copy\.copy|copy\.deepcopy|bytearray|bytes|list)\((.*)\)$', r'\1', v)
+                src = re.sub(r'(\[:\]|\.copy\(\))$', '', src)
+                src = re.sub(r'^SLICE\((.*);;\)$', r'\1', src)                 # x[:] of an octet string
+                if src in ('%s.%s' % (cme, fld), '%s._%s' % (cme, fld)):
+                    carried.add(fld)
+            # a field left at its default on a path that decided on the source's value of it (`if self.ct is not None:`) is carried
+            decided = {x.lstrip('_') for f_ in s.facts for x in re.findall(r'(?<![\w.])%s\.(\w+)' % re.escape(cme), f_[0])}
+            carried |= (emitted & decided)
+            missing = sorted(emitted - carried)
+            rep.check(not missing and bool(emitted), rid, '%s.__copy__' % cname, 'writer emits %s, copy carries %s' % (sorted(emitted), sorted(carried)),
+                      'a copied packet must carry every field its writer emits (a copy rebuilt from a derived view exports a truncated packet)',
+                      where=cpm.where, expected=sorted(emitted), found=sorted(carried))
 
 
 READER_ROOTS = {'__bytearray__', '__hashbytearray__', '__unhashbytearray__', '__lt__', '__gt__', '__le__', '__ge__', '__eq__', '__hash__', 'hashdata',
